@@ -320,7 +320,7 @@ def run(repo: Repo, chk: Check, thorough: bool = False) -> None:
                     return any(safe(v, True) for v in e.values) if pol else all(safe(v, False) for v in e.values)
                 return all(safe(v, True) for v in e.values) if pol else any(safe(v, False) for v in e.values)
             return False
-        safe_edges = [(nid, id(t), k) for nid, edges in cfgr.succ.items() for (t, l, k) in edges if l is not None and safe(l[0], l[1])]
+        safe_edges = [(nid, id(t), k) for nid, edges in cfgr.succ.items() for (t, l, k) in edges if l is not None and safe(cfgr.subst_named(l[0]), l[1])]
         reach = cfgr.reachable(cfgr.ENTRY, avoid_edges=safe_edges, no_exc=True)
         okm = bool(safe_edges) and id(cfgr.stmt_of(c)) not in reach
         chk.ob('R02.4', 'astbuilder.ModuleVistor._handleReExport :: a module is only moved into a package that can hold it', okm,
